@@ -485,6 +485,43 @@ def fromPal (v : Variant) (G : K) (pr : Part K) (m a lambda k h ix iy : K) : Par
   let an := sqrt (G * (m + pr.m) / a)
   fromPalCore pr m a k h ix iy p q slp clp l iz an
 
+/-- `reb_tools_particle_to_pal`: Cartesian → Pal elements `(a, lambda, k, h, ix, iy)` (tools.c:1233-1259) -/
+structure PalEl (K : Type) where
+  a : K
+  lambda : K
+  k : K
+  h : K
+  ix : K
+  iy : K
+
+def particleToPal (G : K) (p pr : Part K) : PalEl K :=
+  let x := p.x - pr.x
+  let y := p.y - pr.y
+  let z := p.z - pr.z
+  let vx := p.vx - pr.vx
+  let vy := p.vy - pr.vy
+  let vz := p.vz - pr.vz
+  let mu := G * (p.m + pr.m)
+  let r2 := x * x + y * y + z * z
+  let r := sqrt r2
+  let cx := y * vz - z * vy
+  let cy := z * vx - x * vz
+  let cz := x * vy - y * vx
+  let c2 := cx * cx + cy * cy + cz * cz
+  let c := sqrt c2
+  let chat := x * vx + y * vy + z * vz
+  let fac := sqrt (two / (one + cz / c)) / c
+  let ix := (neg fac) * cy
+  let iy := fac * cx
+  let k := c / mu * (vy - vz / (c + cz) * cy) - one / r * (x - z / (c + cz) * cx)
+  let h := c / mu * ((neg vx) + vz / (c + cz) * cx) - one / r * (y - z / (c + cz) * cy)
+  let e2 := k * k + h * h
+  let a := c2 / (mu * (one - e2))
+  let l := one - sqrt (one - e2)
+  let lambda := atan2 ((neg r) * vx + r * vz * cx / (c + cz) - k * chat / (two - l))
+                      (r * vy - r * vz * cy / (c + cz) + h * chat / (two - l)) - chat / c * (one - l)
+  { a := a, lambda := lambda, k := k, h := h, ix := ix, iy := iy }
+
 end pal
 
 /-! ## the value part of the C front end `reb_particle_from_fmt_errV` -/
